@@ -129,6 +129,12 @@ char const* FIO_lzmaVersion(void)
 *  Signal (Ctrl-C trapping)
 **************************************/
 static const char* g_artefact = NULL;
+/* A fatal error (EXM_THROW => exit()) raised while a destination file is being produced
+ * must not leave the incomplete file behind : g_artefact is only set during that period. */
+static void FIO_removeArtefactAtExit(void)
+{
+    if (g_artefact) remove(g_artefact);
+}
 static void INThandler(int sig)
 {
     assert(sig==SIGINT); (void)sig;
@@ -144,6 +150,11 @@ static void INThandler(int sig)
 }
 static void addHandler(char const* dstFileName)
 {
+    static int atexitRegistered = 0;
+    if (!atexitRegistered) {
+        atexitRegistered = 1;
+        atexit(FIO_removeArtefactAtExit);
+    }
     if (UTIL_isRegularFile(dstFileName)) {
         g_artefact = dstFileName;
         signal(SIGINT, INThandler);
